@@ -67,7 +67,7 @@ def handle (j : Json) : Json :=
       | "read" | "pread64" => .read (objOf inside)
       | "write" => .write (objOf inside)
       | "fsync" => .fsync (objOf inside)
-      | "rename" | "renameat" | "renameat2" => .rename
+      | "rename" | "renameat" | "renameat2" => if (inside.splitOn "->lock").length > 1 then .renameLock else .rename
       | "ftruncate" => .truncate (objOf inside)
       | "unlink" | "unlinkat" => .unlink (objOf inside)
       | "close" => .close (objOf inside)
